@@ -27,7 +27,7 @@ def gen(seed, idx, tier):
         eps_kinds=("none", "none", "none", "const", "spatial"),
         p_remesh=0.12,
     )
-    return scn
+    return scen.maybe_solve_twice(rnd, scn)
 
 
 def check_frames(sim, h):
